@@ -1,6 +1,6 @@
 PID = "C01"
 WORKER = "w_c01"
-HEADER = "From Coq Require Import List ZArith QArith Qcanon.\nFrom Dimod Require Import Base.Util Model.Poly Model.HPoly Model.Samples Model.EnergyCy Model.ChkC01.\nFrom Dimod Require Model.Adj Model.PyBqm.\nImport ListNotations."
+HEADER = "From Coq Require Import List ZArith QArith Qcanon.\nFrom Dimod Require Import Base.Util Model.Poly Model.HPoly Model.Samples Model.EnergyCy Model.ChkC01.\nFrom Dimod Require Model.Adj Model.PyBqm Model.ViewOps Gen.Gen_View.\nImport ListNotations."
 CHECK_FN = "check"
 N_QUICK = 2400
 N_THOROUGH = 60000
@@ -9,7 +9,7 @@ RULE = ("random models of every class (BQM float64/float32/object and their spin
         "constant-only expression, DQM, BinaryPolynomial) with dyadic coefficients, evaluated under each samples_like form (dict, "
         "labelled array in a random column order with extra columns, list of dicts in differing key orders, SampleSet) and with a "
         "model variable dropped / a DQM case out of range; non-trivial = model has a term (or is the constant-only expression); distinct by case JSON")
-TRUSTED = ["model: coq/theories/Model/{Poly,HPoly,Samples,ChkC01}.v",
+TRUSTED = ["model: coq/theories/Model/{Poly,HPoly,Samples,ChkC01}.v; code-shaped loop models Model/{EnergyCy,DqmLoop,HPolyLoop,PyBqm}.v over Model/Adj.v (each proved equal to the polynomial-level definition and evaluated on the raw state the implementation exposes: _ilinear/_ineighborhood, _iindices/_iquadratic, to_numpy_vectors/_cydqm.adj, pyBQM._adj)",
            "float arithmetic of the implementation is exact on the generated dyadic data (not verified)"]
 ASSUMPTIONS = ["IEEE-754 arithmetic is exact on the small dyadic coefficients generated (float32 back-end uses smaller ones)"]
 PARTIAL = []
